@@ -28,7 +28,9 @@ CONTRACT = ("to_pandas(filters=F) contains every source row satisfying F (null n
             "filter_row_groups(as_idx=True) agree with it")
 
 DATASETS = ["flat1", "flat3", "flat4v2", "flat2v2", "hive0", "hive_pi", "hive_ps_pb", "hive_pt", "drill_pi_ps",
-            "idx_dt", "one_row"]
+            "idx_dt", "one_row"] + list(D.LONG_TEXT)
+# long_text*: text columns u (object, with None) / us (str dtype) whose cells are 74..133 bytes long and share their
+# first 70 bytes, written with statistics in 3 / 2 row groups: constants are the real chunk bounds and their neighbours
 # (test-data/evo is left out: its last file is mis-decoded by the plain full read - name '' / age 2 where the
 # file's statistics say 'Alex' / 36 - so the full read cannot serve as the oracle side there; C03 territory)
 FOREIGN = ["nation.plain.parquet", "test.parquet", "split", "multi_rgs_pyarrow", "datapage_v2.snappy.parquet",
@@ -49,6 +51,8 @@ QUICK_COLS = {
     "drill_pi_ps": ["dir0", "dir1", "rid", "i", "c"],
     "idx_dt": ["t", "rid", "i", "s"],
     "one_row": ["rid", "s", "f"],
+    "long_text": ["rid", "u", "us"],
+    "long_text_hive_v2": ["u", "us"],
 }
 
 # ---------------------------------------------------------------------------------------------
@@ -552,7 +556,7 @@ def run_bounded(ctx):
     ctx.bounded_group(G, rule=(
         "datasets %s + foreign fixtures %s (each written once by the real writer: 1..4 row groups, multi-page, "
         "v1/v2 pages, hive/drill partitions on int/str/bool/datetime, stats True/False/auto/list, all-null chunk, "
-        "NaN, nullable Int64, categorical) x every column x operators {==,=,!=,<,<=,>,>=} x constants "
+        "NaN, nullable Int64, categorical, text cells of 74..133 bytes sharing a 70-byte prefix with statistics on) x every column x operators {==,=,!=,<,<=,>,>=} x constants "
         "{each chunk's min/max, one step below/above each, far outside, other comparable type (int<->float), NaN} "
         "and {in, not in} x lists {empty, [min], [max], [min,max], all values of a chunk, inner values, outside}; "
         "plus AND pairs, OR pairs, OR-of-AND and nested single group built from a fixed stride over the atoms, "
